@@ -196,7 +196,9 @@ class ReusableVector<T, MonotonicAllocator<U, A>> {
     }
   }
   inline bool deserialize(CodedInputStream& is) noexcept {
-    while (is.BytesUntilLimit() > 0) {
+    const void* data = nullptr;
+    int size = 0;
+    while (is.GetDirectBufferPointer(&data, &size)) {
       emplace_back();
       if (ABSL_PREDICT_FALSE(
               !SerializationHelper::deserialize_packed_field(is, back()))) {
